@@ -18,13 +18,13 @@ let field line key =
   | None -> ""
   | Some s -> let e = (try Stdlib.String.index_from line s ' ' with Not_found -> ll) in Stdlib.String.sub line s (e - s)
 let attr_fields = ["ty"; "os"; "lm"; "at"; "nm"; "st"; "inf"; "ud"]
-(* ids whose attr->group.dont_merge byte reads non-zero (see Restrict.v, dont_merge_level) *)
+(* ids of the Groups with dont_merge set (see Restrict.v, dont_merge_level) *)
 let dont_merge_ids (p : parsed_dump) =
   let l = ref [] in
   Stdlib.Array.iteri (fun i line ->
     let a = attr_tbl (field line "at") in
     let nz k m = match Stdlib.Hashtbl.find_opt a k with Some v -> (try (int_of_string v) mod m <> 0 with _ -> true) | None -> false in
-    if nz "gdontmerge" 256 || nz "cline" 256 then l := n_of_int i :: !l) p.raw_objs;
+    if nz "gdontmerge" 256 then l := n_of_int i :: !l) p.raw_objs;
   Stdlib.List.rev !l
 
 let cur : parsed_dump option ref = ref None
